@@ -102,8 +102,23 @@ def raising_frame(exc):
 
 
 class Deadline:
-    def __init__(self, t_end):
+    """wall cap of the run; also fires when the runner process that started the pool has gone away (a killed runner
+    must not leave workers enumerating for hours)"""
+
+    def __init__(self, t_end, runner_pid=None):
         self.t_end = t_end
+        self.runner_pid = runner_pid
+        self._n = 0
 
     def expired(self):
-        return time.time() > self.t_end
+        if time.time() > self.t_end:
+            return True
+        if self.runner_pid is not None:
+            self._n += 1
+            if self._n % 64 == 0:
+                try:
+                    import os
+                    os.kill(self.runner_pid, 0)
+                except OSError:
+                    return True
+        return False
